@@ -7,7 +7,7 @@
    in the old relative order; active_at (tbl s) k is what ansi_settings_at(k) reports. *)
 From AS Require Import Base.
 From AS.Model Require Import Table Ops.
-From AS.Proofs Require Import TableProofs SliceProofs PadProofs RemoveProofs.
+From AS.Proofs Require Import TableProofs SliceProofs PadProofs RemoveProofs GenFns.
 
 Theorem C07_text : forall s sel st en, base (remove_fmt s sel st en) = base s.
 Proof.
@@ -56,3 +56,10 @@ Print Assumptions C07_clear.
    range [1,4) cutting through all of them *)
 Example C07_example := Ex.s0_hyps.
 Example C07_example_result := Ex.s0_result.
+
+(* the range normalisation (negative, omitted, too large bounds) IS the code's _slice_val_to_idx: its body
+   is re-translated from the Python source on every run (Gen/Fns.v) and shown equal to slice_idx *)
+Theorem C07_bounds_are_code : forall (len : nat) (v : option Z) (d : nat),
+  Z.of_nat (slice_idx len v d) = AS.Gen.Fns.gen_slice_val_to_idx (Z.of_nat len) v (Z.of_nat d).
+Proof. exact slice_idx_is_code. Qed.
+Print Assumptions C07_bounds_are_code.
